@@ -414,3 +414,52 @@ def run_case(case, ctx):
             break
     obs.nontrivial = mutating >= 3 and interesting
     return obs
+
+
+# --------------------------------------------------------------------------------------------------
+# byte-level decoder for the coverage-guided stage (vp/fuzz.py): the same case domain as strategy(),
+# built from a libFuzzer byte string through atheris' FuzzedDataProvider
+# --------------------------------------------------------------------------------------------------
+def decode_bytes(fdp):
+    def pool_ref():
+        return fdp.ConsumeIntInRange(0, N_COMPAT - 1) if fdp.ConsumeBool() else fdp.ConsumeIntInRange(0, POOL - 1)
+
+    def index():
+        return fdp.ConsumeIntInRange(-9, 9)
+
+    def opt():
+        return None if fdp.ConsumeBool() else fdp.ConsumeIntInRange(-9, 9)
+
+    def text(alphabet, lo, hi):
+        return ''.join(alphabet[fdp.ConsumeIntInRange(0, len(alphabet) - 1)] for _ in range(fdp.ConsumeIntInRange(lo, hi)))
+    kinds = ['append', 'insert', 'extend', 'iadd', 'setitem', 'delitem', 'delslice', 'pop', 'getitem', 'getitem_slice',
+             'getitem_list', 'by_label', 'clone', 'swap', 'set_order']
+    ops = []
+    for _ in range(fdp.ConsumeIntInRange(3, 25)):
+        k = kinds[fdp.ConsumeIntInRange(0, len(kinds) - 1)]
+        if k == 'append':
+            ops.append({'op': k, 'v': pool_ref()})
+        elif k in ('insert', 'setitem'):
+            ops.append({'op': k, 'i': index(), 'v': pool_ref()})
+        elif k in ('extend', 'iadd'):
+            ops.append({'op': k, 'vs': [pool_ref() for _ in range(fdp.ConsumeIntInRange(0, 4))]})
+        elif k in ('delitem', 'getitem'):
+            ops.append({'op': k, 'i': index()})
+        elif k in ('delslice', 'getitem_slice'):
+            ops.append({'op': k, 'a': opt(), 'b': opt(), 'c': [None, 1, 2, -1][fdp.ConsumeIntInRange(0, 3)]})
+        elif k == 'pop':
+            ops.append({'op': k, 'i': None if fdp.ConsumeBool() else index()})
+        elif k == 'getitem_list':
+            ops.append({'op': k, 'kind': 'list' if fdp.ConsumeBool() else 'ndarray',
+                        'ii': [index() for _ in range(fdp.ConsumeIntInRange(1, 5))]})
+        elif k == 'by_label':
+            ops.append({'op': k, 'label': 'ABCDXab'[fdp.ConsumeIntInRange(0, 6)]})
+        elif k in ('clone', 'swap'):
+            ops.append({'op': k})
+        else:
+            ops.append({'op': k, 'order': text('ABCDab', 1, 12)})
+    return {'ordered': fdp.ConsumeBool(),
+            'order': 'ABACAD' if fdp.ConsumeBool() else text('ABCDab', 0, 9),
+            'init': [pool_ref() for _ in range(fdp.ConsumeIntInRange(0, 6))],
+            'overwrite': [None, None, 0.0, 30.0, 7.25][fdp.ConsumeIntInRange(0, 4)],
+            'ops': ops}
